@@ -12,6 +12,13 @@ LONG = [str(i) for i in range(1, 13)] + ["X"]
 LONG_CHR = ["chr" + x for x in LONG]
 
 
+# barcode pools (round 8): names of which one is a proper prefix of another ("T1" / "T1A" / "T1-x"), and characters
+# on both sides of the usual separators ('|' 0x7C, '~', ' ', '-', '.') - an order taken over a JOINED text
+# ("tumor|normal") differs from the component-wise order exactly on these
+TUMORS = ["T1", "T1", "T2", "TA", "T1A", "T1-x", "T1|N", "T", "T1.b", "T1~"]
+NORMALS = ["N1", "N1", "N2", "", "N1A", "N", "N1|T", "N1-x"]
+
+
 def typed_record(rng, tumor="T1", normal="N1", chrom="1", start=10, end=12, ann=BASIC, extra=None):
     """A record parsed under a typed scheme (Chromosome becomes int for numeric names)."""
     from . import colcases
